@@ -41,6 +41,9 @@ import XotModel.Lemmas.RepairValid
 import XotModel.Lemmas.SerResolveTop
 import XotModel.Lemmas.RepairRoundTripDoc
 import XotModel.Lemmas.RepairRoundTripElement
+import XotModel.Lemmas.RepairDocKeep
+import XotModel.Lemmas.RepairRun
+import XotModel.Lemmas.RepairDeclsOk
 import XotModel.Props.C01
 
 namespace XotModel.Props
@@ -1243,5 +1246,379 @@ example : ∃ r' s p,
   exact ⟨r', s, p, h3, k1, k2, k3, k5⟩
 
 end EndToEnd
+
+/-! ## The call on a DOCUMENT node: declarations and bindings kept; every tree: what holds after repair
+
+Two restatements that the sections above left to composition. -/
+
+section DocumentKeepsAndEveryTree
+open XotModel.Repair
+
+/-- DESCENDANTS' DECLARATIONS, call on a document (or fragment) node — `C10_repair_keeps_declarations` composed
+    with `C10_repair_document_calls`: the document node keeps its value, its children keep their values and
+    order, the bindings in scope at it are the same; every child that is NOT an element is untouched, subtree
+    and all; and for every ELEMENT child `k` (at index `i`, unchanged by the calls on its siblings) the statement
+    of `C10_repair_keeps_declarations` holds between `k` as it was BEFORE the call on the document and the node
+    `E'` in its place after it, relative to the declarations `k` inherited before the call (which are the
+    bindings in scope at the document node): same number of nodes other than namespace nodes below, each with
+    its value, each with its declaration list — or `insert("", no namespace)` into it exactly at a no-namespace
+    element under a default namespace. -/
+theorem C10_repair_document_keeps_declarations (env : Env) (hok : EnvOk env) (t : Tree) (path : Path) (doc : Tree)
+    (hat : t.at? path = some doc) (hdoc : doc.value.isDocument = true)
+    (hu : ∀ (i : Nat) (k : Tree), doc.kids[i]? = some k → k.value.isElement = true → UniqueBelow k)
+    (env' : Env) (t' : Tree) (h : createMissingPrefixes env t path = .ok (env', t')) :
+    (∃ doc', t'.at? path = some doc' ∧ doc'.value = doc.value ∧
+      doc'.kids.map Tree.value = doc.kids.map Tree.value) ∧
+    namespacesInScope t' path = namespacesInScope t path ∧
+    (∀ (j : Nat) (k : Tree), doc.kids[j]? = some k → k.value.isElement = false →
+      ∀ r, t'.at? (path ++ j :: r) = t.at? (path ++ j :: r)) ∧
+    ∀ (i : Nat) (k : Tree) (name : Nat), doc.kids[i]? = some k → k.value = .element name →
+      ∃ E', t'.at? (path ++ [i]) = some E' ∧ E'.value = .element name ∧
+        (nodesBelow [inheritedDecls t (path ++ [i])] k).length =
+          (nodesBelow [inheritedDecls t (path ++ [i])] E').length ∧
+        ∀ (m : Nat) (b a : Frames × Tree),
+          (nodesBelow [inheritedDecls t (path ++ [i])] k)[m]? = some b →
+          (nodesBelow [inheritedDecls t (path ++ [i])] E')[m]? = some a →
+          a.2.value = b.2.value ∧
+          ((NeedsUndeclaration env.nsOfName a.1.tail b.2 ∧
+              a.2.nsDecls = insertDecl Env.emptyPrefix Env.noNamespace b.2.nsDecls) ∨
+            (¬ NeedsUndeclaration env.nsOfName a.1.tail b.2 ∧ a.2.nsDecls = b.2.nsDecls)) := by
+  have hf := document_facts env hok t path doc hat hdoc hu env' t' h
+  obtain ⟨k1, k2⟩ := rdk_document_kept env hok t path doc hat hdoc hu env' t' h
+  refine ⟨docFacts_node hf doc hat, hf.scope, k2, ?_⟩
+  intro i k name hk hv
+  obtain ⟨E', e1, e2, _, e4⟩ := k1 i k hk (by rw [hv]; rfl)
+  rw [inheritedDecls_child]
+  obtain ⟨hl, hall⟩ := allPairs_iff_getElem.mp e4
+  exact ⟨E', e1, by rw [e2, hv], hl, fun m b a hb ha => ⟨(hall m b a hb ha).1, (hall m b a hb ha).2.1⟩⟩
+
+/-- BINDINGS, call on a document (or fragment) node — `C10_repair_keeps_bindings` composed with
+    `C10_repair_document_calls`: at every element child and at every node below it, every binding of a
+    non-empty prefix in force before the call on the document is in force after it, and the empty prefix means
+    what it meant or a default namespace has become "no namespace" (`BindingsKept`; what that means for names:
+    `C10_repair_keeps_resolution`).  The other children and the bindings in scope at the document node are
+    untouched (`C10_repair_document_keeps_declarations`). -/
+theorem C10_repair_document_keeps_bindings (env : Env) (hok : EnvOk env) (t : Tree) (path : Path) (doc : Tree)
+    (hat : t.at? path = some doc) (hdoc : doc.value.isDocument = true)
+    (hu : ∀ (i : Nat) (k : Tree), doc.kids[i]? = some k → k.value.isElement = true → UniqueBelow k)
+    (env' : Env) (t' : Tree) (h : createMissingPrefixes env t path = .ok (env', t')) :
+    ∀ (i : Nat) (k : Tree), doc.kids[i]? = some k → k.value.isElement = true →
+      ∃ E', t'.at? (path ++ [i]) = some E' ∧
+        BindingsKept (k.nsDecls :: [inheritedDecls t (path ++ [i])])
+          (E'.nsDecls :: [inheritedDecls t (path ++ [i])]) ∧
+        ∀ (m : Nat) (b a : Frames × Tree),
+          (nodesBelow [inheritedDecls t (path ++ [i])] k)[m]? = some b →
+          (nodesBelow [inheritedDecls t (path ++ [i])] E')[m]? = some a → BindingsKept b.1 a.1 := by
+  intro i k hk hv
+  obtain ⟨E', e1, _, e3, e4⟩ := (rdk_document_kept env hok t path doc hat hdoc hu env' t' h).1 i k hk hv
+  rw [inheritedDecls_child]
+  exact ⟨E', e1, e3, fun m b a hb ha => ((allPairs_iff_getElem.mp e4).2 m b a hb ha).2.2⟩
+
+/-- Non-vacuity, closed: the fragment `<a xmlns="u"><b/></a><!--c--><d xmlns:p="v"><e/></d>` (`a`, `e` in `u`,
+    `b`, `d` in no namespace; call on the document node): `b` gets `xmlns=""`, `d` gets the new `xmlns:n0="u"`
+    for `e` and keeps `xmlns:p`; the comment is untouched. -/
+def c10DocKeepEnv : Env :=
+  ⟨[[], ['x'], ['u'], ['v']], [[], ['x','m','l'], ['p']], [(['a'], 2), (['b'], 0), (['d'], 0), (['e'], 2)]⟩
+def c10DocKeepDoc : Tree :=
+  .node .document [
+    .node (.element 0) [.node (.namespace 0 2) [], .node (.element 1) []],
+    .node (.comment ['c']) [],
+    .node (.element 2) [.node (.namespace 2 3) [], .node (.element 3) []]]
+
+example :
+    (match createMissingPrefixes c10DocKeepEnv c10DocKeepDoc [] with
+      | .ok (env', t') => some (env'.prefixes.length, (t'.at? [0]).map Tree.nsDecls, (t'.at? [0, 1]).map Tree.nsDecls)
+      | _ => none) = some (4, some [(0, 2)], some [(0, 0)]) := by decide
+
+example :
+    (match createMissingPrefixes c10DocKeepEnv c10DocKeepDoc [] with
+      | .ok (env', t') => some ((t'.at? [2]).map Tree.nsDecls, namesWritable env' t' [], toXmlString env' t' [])
+      | _ => none) =
+    some (some [(2, 3), (3, 2)], some true,
+      .ok "<a xmlns=\"u\"><b xmlns=\"\"/></a><!--c--><d xmlns:p=\"v\" xmlns:n0=\"u\"><n0:e/></d>".toList) := by
+  decide
+
+/-! ### Every tree (no `Representable`): after the call the run never fails on a name, and every name resolves -/
+
+/-- **What `namesWritable` means for the run itself**, EVERY tree, start node, vocabulary, escaping function and
+    parameter set — no well-formedness, no `Representable`: if the serialiser's `MissingPrefix` checks pass
+    (`namesWritable`, what `create_missing_prefixes` establishes), then every event of the run that is reached is
+    rendered `Ok`, except that a processing instruction whose target is in a namespace is refused with
+    `NamespaceInProcessingInstruction` — the one error of `XmlSerializer::render_output` that is not about a
+    name's prefix.  So the rendered stream, and `serialize_xml_string` / `to_string`, end `Ok` or with that
+    error — never `MissingPrefix`, never a panic — and `Ok` when no processing instruction of the subtree has a
+    namespaced target. -/
+theorem C10_writable_run_outcome (esc : Escapers) (env : Env) (pr : TokenParams) (t : Tree) (start : Path)
+    (hw : namesWritable env t start = some true) :
+    (∀ x ∈ stackTrace esc env pr t (initStack t start) (genOutputs t start), rrun_StepFine esc env pr t x) ∧
+    ((∃ l, renderAllWith esc env pr t (initStack t start) (genOutputs t start) = .ok l ∧
+        serializeStringWith esc env pr t start = .ok (streamBytes l)) ∨
+      (renderAllWith esc env pr t (initStack t start) (genOutputs t start) = .err .namespaceInProcessingInstruction ∧
+        serializeStringWith esc env pr t start = .err .namespaceInProcessingInstruction)) ∧
+    ((∀ p tg d, (p, Output.pi tg d) ∈ genOutputs t start → (env.namespaceStr (env.nsOfName tg)).isEmpty = true) →
+      ∃ l, renderAllWith esc env pr t (initStack t start) (genOutputs t start) = .ok l ∧
+        serializeStringWith esc env pr t start = .ok (streamBytes l)) := by
+  have hfine := rrun_of_namesWritable esc env pr t start hw
+  have hout := rrun_outcome esc env pr t _ _ hfine
+  refine ⟨hfine, ?_, ?_⟩
+  · rcases hout with ⟨l, hl⟩ | he
+    · refine Or.inl ⟨l, hl, ?_⟩
+      unfold serializeStringWith serializeWriteWith bufferToString
+      rw [writeGo_of_renderAll_ok esc env pr t _ _ l hl]
+    · refine Or.inr ⟨he, ?_⟩
+      unfold serializeStringWith serializeWriteWith bufferToString
+      rw [writeGo_of_renderAll_err esc env pr t _ _ _ he]
+  · intro hpi
+    obtain ⟨l, hl⟩ := rrun_ok_of_no_pi esc env pr t _ _ hfine hpi
+    refine ⟨l, hl, ?_⟩
+    unfold serializeStringWith serializeWriteWith bufferToString
+    rw [writeGo_of_renderAll_ok esc env pr t _ _ l hl]
+
+/-- **C10_repair_run_outcome**: for EVERY tree whose elements declare no prefix twice — empty or adjacent text
+    nodes, non-XML characters in values, names that are no NCNames, repeated `xml:id`s included — after
+    `create_missing_prefixes(element)`, `to_string(element)` (any escaping functions and token parameters) returns
+    `Ok` or `Err(NamespaceInProcessingInstruction)`: never `MissingPrefix`, never a panic; and `Ok` when no
+    processing instruction below the element has a namespaced target. -/
+theorem C10_repair_run_outcome (esc : Escapers) (pr : TokenParams) (env : Env) (hok : EnvOk env) (t : Tree)
+    (path : Path) (name : Nat) (ks : List Tree) (hat : t.at? path = some (.node (.element name) ks))
+    (hu : UniqueBelow (.node (.element name) ks)) (env' : Env) (t' : Tree)
+    (h : createMissingPrefixes env t path = .ok (env', t')) :
+    ((∃ l, renderAllWith esc env' pr t' (initStack t' path) (genOutputs t' path) = .ok l ∧
+        serializeStringWith esc env' pr t' path = .ok (streamBytes l)) ∨
+      (renderAllWith esc env' pr t' (initStack t' path) (genOutputs t' path) = .err .namespaceInProcessingInstruction ∧
+        serializeStringWith esc env' pr t' path = .err .namespaceInProcessingInstruction)) ∧
+    ((∀ p tg d, (p, Output.pi tg d) ∈ genOutputs t' path → (env'.namespaceStr (env'.nsOfName tg)).isEmpty = true) →
+      ∃ l, renderAllWith esc env' pr t' (initStack t' path) (genOutputs t' path) = .ok l ∧
+        serializeStringWith esc env' pr t' path = .ok (streamBytes l)) :=
+  (C10_writable_run_outcome esc env' pr t' path
+    (C10_repair_writable env hok t path name ks hat hu env' t' h)).2
+
+/-- The same for the call on a document or fragment whose children other than elements are leaves. -/
+theorem C10_repair_document_run_outcome (esc : Escapers) (pr : TokenParams) (env : Env) (hok : EnvOk env) (t : Tree)
+    (path : Path) (doc : Tree) (hat : t.at? path = some doc) (hdoc : doc.value.isDocument = true)
+    (hu : ∀ (i : Nat) (k : Tree), doc.kids[i]? = some k → k.value.isElement = true → UniqueBelow k)
+    (hleaf : ∀ (i : Nat) (k : Tree), doc.kids[i]? = some k → k.value.isElement = false → k.kids = [])
+    (env' : Env) (t' : Tree) (h : createMissingPrefixes env t path = .ok (env', t')) :
+    ((∃ l, renderAllWith esc env' pr t' (initStack t' path) (genOutputs t' path) = .ok l ∧
+        serializeStringWith esc env' pr t' path = .ok (streamBytes l)) ∨
+      (renderAllWith esc env' pr t' (initStack t' path) (genOutputs t' path) = .err .namespaceInProcessingInstruction ∧
+        serializeStringWith esc env' pr t' path = .err .namespaceInProcessingInstruction)) ∧
+    ((∀ p tg d, (p, Output.pi tg d) ∈ genOutputs t' path → (env'.namespaceStr (env'.nsOfName tg)).isEmpty = true) →
+      ∃ l, renderAllWith esc env' pr t' (initStack t' path) (genOutputs t' path) = .ok l ∧
+        serializeStringWith esc env' pr t' path = .ok (streamBytes l)) :=
+  (C10_writable_run_outcome esc env' pr t' path
+    (C10_repair_document_writable env hok t path doc hat hdoc hu hleaf env' t' h)).2
+
+/-- **Every name of a writable subtree resolves to its own expanded name** (`C10_sound`-style, on the token
+    stream of the run): EVERY tree whose elements declare no prefix twice, every start node at which
+    `namesWritable` holds.  At every event `(s, p, o)` the run reaches (`s` the name stack it holds there):
+    * a `StartTagOpen` is rendered — the token is `<` + the qualified name built from the prefix `element_prefix`
+      answers on the stack with the element's declarations pushed — and that prefix resolves, by XML-Namespaces
+      rules in the declarations of the open elements (the element's own included) on top of the bindings in scope
+      at the start node, to the element's namespace;
+    * an `Attribute` is rendered as `qname="…"` with the prefix `attribute_prefix` answers, never the empty
+      prefix, resolving to the attribute's namespace;
+    * the `EndTag` of an element with children writes the same qualified name, resolving the same way.
+    (`XmlPrefixReserved`: the tree does not rebind `xml`; without it the prefixes are still the ones the
+    serialiser's lookups answer.) -/
+theorem C10_writable_resolves_everywhere (esc : Escapers) (env : Env) (pr : TokenParams) (t : Tree) (start : Path)
+    (n : Tree) (inScope : List (Nat × Nat)) (hat : t.at? start = some n)
+    (hs : namespacesInScope t start = some inScope) (hu : UniqueBelow n)
+    (hw : namesWritable env t start = some true)
+    (s : FStack) (p : Path) (o : Output)
+    (hx : (s, p, o) ∈ stackTrace esc env pr t (initStack t start) (genOutputs t start)) :
+    ∃ rel node, p = start ++ rel ∧ n.at? rel = some node ∧
+      (∀ nm, o = .startTagOpen nm → ∃ pfx, (s.push node.nsDecls).elementPrefix env nm = .ok pfx ∧
+        renderAtWith esc env pr t s p o =
+          .ok (s.push node.nsDecls, ⟨false, fmt Gen.fmtStartTagOpen [qname env pfx nm]⟩) ∧
+        (XmlPrefixReserved (framesAlong n rel ++ [inScope]) →
+          resolveElementName (framesAlong n rel ++ [inScope]) pfx = some (env.nsOfName nm))) ∧
+      (∀ nm v, o = .attribute nm v → ∃ pfx, s.attributePrefix env nm = .ok pfx ∧ pfx ≠ some Env.emptyPrefix ∧
+        renderAtWith esc env pr t s p o = .ok (s, ⟨true, fmt Gen.fmtAttribute [qname env pfx nm, esc.attr v]⟩) ∧
+        (XmlPrefixReserved (framesAlong n rel ++ [inScope]) →
+          resolveAttributeName (framesAlong n rel ++ [inScope]) pfx = some (env.nsOfName nm))) ∧
+      (∀ nm, o = .endTag nm → node.firstChild?.isSome = true → ∃ pfx, s.elementPrefix env nm = .ok pfx ∧
+        renderAtWith esc env pr t s p o =
+          .ok (s.pop node.hasNsDecls, ⟨false, fmt Gen.fmtEndTag [qname env pfx nm]⟩) ∧
+        (XmlPrefixReserved (framesAlong n rel ++ [inScope]) →
+          resolveElementName (framesAlong n rel ++ [inScope]) pfx = some (env.nsOfName nm))) := by
+  have hfine := (C10_writable_run_outcome esc env pr t start hw).1 _ hx
+  obtain ⟨⟨rel, hp, hinv⟩, _⟩ := genOutputs_trace esc env pr t start n inScope hat hs hu _ hx
+  simp only at hp hinv
+  have hev := stackTrace_mem_events esc env pr t _ _ _ hx
+  simp only at hev
+  have hg : genOutputs t start = genNode inScope true start n := by simp [genOutputs, hat, hs]
+  rw [hg] at hev
+  obtain ⟨rel', node, hp', hnode, _, _⟩ := genNode_tagged inScope true start n p _ hev
+  have hrr : rel' = rel := List.append_cancel_left (hp'.symm.trans hp)
+  subst hrr
+  have hnodeT : t.at? p = some node := by rw [hp, at?_append, hat]; exact hnode
+  refine ⟨rel', node, hp, hnode, ?_, ?_, ?_⟩
+  · intro nm ho
+    subst ho
+    obtain ⟨pfx, h1, h2⟩ := rrun_fine_open esc env pr t s p nm node hnodeT hfine
+    refine ⟨pfx, h1, h2, ?_⟩
+    have hstep : stepStack esc env pr t s (p, .startTagOpen nm) = some (s.push node.nsDecls) := by
+      simp [stepStack, h2]
+    obtain ⟨rel2, pfx2, hp2, hpfx2, hres⟩ :=
+      C10_sound_tree esc env pr t start n inScope hat hs hu s _ p nm node hx hnodeT hstep
+    have : rel2 = rel' := List.append_cancel_left (hp2.symm.trans hp)
+    subst this
+    rw [h1] at hpfx2
+    cases hpfx2
+    exact hres
+  · intro nm v ho
+    subst ho
+    obtain ⟨pfx, h1, h2⟩ := rrun_fine_attribute esc env pr t s p nm v node hnodeT hfine
+    simp only [framesFor] at hinv
+    exact ⟨pfx, h1, rrun_attributePrefix_ne_empty env s nm pfx h1, h2,
+      fun hxr => (C10_sound_attribute env _ _ nm pfx hinv hxr h1).1⟩
+  · intro nm ho hc
+    subst ho
+    obtain ⟨pfx, h1, h2⟩ := rrun_fine_end esc env pr t s p nm node hnodeT hc hfine
+    obtain ⟨rel2, hp2, hres⟩ := C10_sound_tree_endtag esc env pr t start n inScope hat hs hu s p nm pfx hx h1
+    have : rel2 = rel' := List.append_cancel_left (hp2.symm.trans hp)
+    subst this
+    exact ⟨pfx, h1, h2, hres⟩
+
+/-- **C10_repair_resolves_everywhere**: `C10_writable_resolves_everywhere` for the tree
+    `create_missing_prefixes(element)` leaves — for EVERY tree whose elements declare no prefix twice (nothing
+    else: no `Representable`).  After the call, at every event the run of `to_string(element)` reaches, the start
+    tag / attribute / end tag name is rendered, through the prefix the serialiser picks, and that prefix resolves
+    to the name's own namespace; together with `C10_repair_run_outcome` (the run reaches every event unless a
+    processing instruction with a namespaced target stops it) and `C10_repair_frame` (names and namespaces of
+    the nodes are unchanged). -/
+theorem C10_repair_resolves_everywhere (esc : Escapers) (pr : TokenParams) (env : Env) (hok : EnvOk env) (t : Tree)
+    (path : Path) (name : Nat) (ks : List Tree) (hat : t.at? path = some (.node (.element name) ks))
+    (hu : UniqueBelow t) (env' : Env) (t' : Tree) (h : createMissingPrefixes env t path = .ok (env', t')) :
+    ∃ E' inScope, t'.at? path = some E' ∧ namespacesInScope t' path = some inScope ∧
+      ∀ s p o, (s, p, o) ∈ stackTrace esc env' pr t' (initStack t' path) (genOutputs t' path) →
+        ∃ rel node, p = path ++ rel ∧ E'.at? rel = some node ∧
+          (∀ nm, o = .startTagOpen nm → ∃ pfx, (s.push node.nsDecls).elementPrefix env' nm = .ok pfx ∧
+            renderAtWith esc env' pr t' s p o =
+              .ok (s.push node.nsDecls, ⟨false, fmt Gen.fmtStartTagOpen [qname env' pfx nm]⟩) ∧
+            (XmlPrefixReserved (framesAlong E' rel ++ [inScope]) →
+              resolveElementName (framesAlong E' rel ++ [inScope]) pfx = some (env'.nsOfName nm))) ∧
+          (∀ nm v, o = .attribute nm v → ∃ pfx, s.attributePrefix env' nm = .ok pfx ∧
+            pfx ≠ some Env.emptyPrefix ∧
+            renderAtWith esc env' pr t' s p o =
+              .ok (s, ⟨true, fmt Gen.fmtAttribute [qname env' pfx nm, esc.attr v]⟩) ∧
+            (XmlPrefixReserved (framesAlong E' rel ++ [inScope]) →
+              resolveAttributeName (framesAlong E' rel ++ [inScope]) pfx = some (env'.nsOfName nm))) ∧
+          (∀ nm, o = .endTag nm → node.firstChild?.isSome = true → ∃ pfx, s.elementPrefix env' nm = .ok pfx ∧
+            renderAtWith esc env' pr t' s p o =
+              .ok (s.pop node.hasNsDecls, ⟨false, fmt Gen.fmtEndTag [qname env' pfx nm]⟩) ∧
+            (XmlPrefixReserved (framesAlong E' rel ++ [inScope]) →
+              resolveElementName (framesAlong E' rel ++ [inScope]) pfx = some (env'.nsOfName nm))) := by
+  have hsub : UniqueBelow (.node (.element name) ks) := by
+    intro rel n' hn
+    exact hu (path ++ rel) n' (by rw [at?_append, hat]; exact hn)
+  have hw := C10_repair_writable env hok t path name ks hat hsub env' t' h
+  obtain ⟨_, hu'⟩ := C10_repair_keeps_unique env hok t path name ks hat hu env' t' h
+  obtain ⟨nd, E', hat', _⟩ := C10_repair_fresh_prefixes env hok t path name ks hat hsub env' t' h
+  obtain ⟨rest, hc⟩ := ancestorsOrSelf_of_at? t' path E' hat'
+  have hs' : namespacesInScope t' path = some (namespacesInScopeChain (E' :: rest)) := by
+    simp [namespacesInScope, hc]
+  have huE : UniqueBelow E' := by
+    intro rel n' hn
+    exact hu' (path ++ rel) n' (by rw [at?_append, hat']; exact hn)
+  exact ⟨E', _, hat', hs', fun s p o hx =>
+    C10_writable_resolves_everywhere esc env' pr t' path E' _ hat' hs' huE hw s p o hx⟩
+
+/-- The call keeps the hypotheses of `C10_names_resolve_in_tokens` and of the `XmlPrefixReserved` clauses, for
+    EVERY tree: it only registers prefix strings `n<k>` that were not in the table (pairwise different strings
+    stay pairwise different; `n` + decimal digits holds no `:` and no `=`), and the declarations it inserts are
+    `xmlns=""` and prefixes just registered that are bound nowhere in scope of the element — in particular not
+    the `xml` prefix, which is bound in every scope.  So: `EnvStrings` of the tables, `DeclsOkBelow` of the
+    repaired element, `DeclsOk` of the bindings in scope at it, and hence `XmlPrefixReserved` of the frames of
+    every event of its run. -/
+theorem C10_repair_keeps_table_hypotheses (env : Env) (henv : SerResolve.EnvStrings env) (t : Tree) (path : Path)
+    (name : Nat) (ks : List Tree) (hat : t.at? path = some (.node (.element name) ks))
+    (hdk : SerResolve.DeclsOkBelow env (.node (.element name) ks))
+    (hinh : SerResolve.DeclsOk env (inheritedDecls t path)) (env' : Env) (t' : Tree)
+    (h : createMissingPrefixes env t path = .ok (env', t')) :
+    SerResolve.EnvStrings env' ∧
+    ∃ E' inScope, t'.at? path = some E' ∧ E'.value = .element name ∧ namespacesInScope t' path = some inScope ∧
+      SerResolve.DeclsOkBelow env' E' ∧ SerResolve.DeclsOk env' inScope ∧
+      ∀ rel, XmlPrefixReserved (framesAlong E' rel ++ [inScope]) := by
+  rw [C10_repair_element env t path name ks hat] at h
+  obtain ⟨h1, E', h2, h3, h4, h5⟩ := rdo_repairElement env henv t path name ks hat hdk hinh env' t' h
+  obtain ⟨rest, hc⟩ := ancestorsOrSelf_of_at? t' path E' h2
+  have hs' : namespacesInScope t' path = some (namespacesInScopeChain (E' :: rest)) := by
+    simp [namespacesInScope, hc]
+  exact ⟨h1, E', _, h2, h3, hs', h4, h5 _ hs', fun rel => rdo_xmlPrefixReserved E' _ h4 (h5 _ hs') rel⟩
+
+/-- **At the level of token TEXTS, every tree** — `C10_names_resolve_in_tokens` composed with
+    `C10_repair_run_outcome` and `C10_repair_keeps_table_hypotheses`, all hypotheses on the state BEFORE the
+    call: interning tables with pairwise different prefix strings, the built-in entries and no `:` / `=` in
+    prefixes and local names (`EnvStrings`); a tree whose elements declare no prefix twice, declare registered
+    prefixes only and do not rebind `xml`, likewise the declarations the element inherits.  Nothing else — no
+    `Representable`, names need not be writable.  After `create_missing_prefixes(element)`, when no processing
+    instruction of the run has a namespaced target, the token stream of the repaired element exists and the
+    independent XML-Namespaces resolver, run over the token TEXTS, answers the expanded names of the nodes. -/
+theorem C10_repair_names_resolve_in_tokens (esc : Escapers) (pr : TokenParams) (unesc : Str → Str)
+    (hue : ∀ u, unesc (esc.attr u) = u) (env : Env) (hok : EnvOk env) (henv : SerResolve.EnvStrings env)
+    (t : Tree) (path : Path) (name : Nat) (ks : List Tree) (hat : t.at? path = some (.node (.element name) ks))
+    (hu : UniqueBelow t) (hdk : SerResolve.DeclsOkBelow env (.node (.element name) ks))
+    (hinh : SerResolve.DeclsOk env (inheritedDecls t path))
+    (env' : Env) (t' : Tree) (h : createMissingPrefixes env t path = .ok (env', t'))
+    (hpi : ∀ p tg d, (p, Output.pi tg d) ∈ genOutputs t' path →
+      (env'.namespaceStr (env'.nsOfName tg)).isEmpty = true) :
+    ∃ toks, tokensWith esc env' pr t' path = .ok toks ∧
+      SerResolve.resolveGo unesc [] none (SerResolve.view toks) =
+        SerResolve.expectedGo env' none (SerResolve.evs toks) := by
+  have hsub : UniqueBelow (.node (.element name) ks) := by
+    intro rel n' hn
+    exact hu (path ++ rel) n' (by rw [at?_append, hat]; exact hn)
+  obtain ⟨l, hl, _⟩ := (C10_repair_run_outcome esc pr env hok t path name ks hat hsub env' t' h).2 hpi
+  have htoks : tokensWith esc env' pr t' path = .ok l := by simp [tokensWith, hl]
+  obtain ⟨_, hu'⟩ := C10_repair_keeps_unique env hok t path name ks hat hu env' t' h
+  obtain ⟨henv', E', inScope, hat', hval, hs', hdk', hin', _⟩ :=
+    C10_repair_keeps_table_hypotheses env henv t path name ks hat hdk hinh env' t' h
+  have huE : UniqueBelow E' := by
+    intro rel n' hn
+    exact hu' (path ++ rel) n' (by rw [at?_append, hat']; exact hn)
+  exact ⟨l, htoks, C10_names_resolve_in_tokens esc env' pr t' unesc henv' hue path E' _ hat' hs' huE
+    hdk' hin' (Or.inl (by rw [hval]; rfl)) l htoks⟩
+
+/-- Non-vacuity of the hypotheses of `C10_repair_names_resolve_in_tokens` (closed): the tables and the tree
+    of the example below, where nothing is declared. -/
+example :
+    let env : Env := ⟨[[], Gen.xmlNs, ['u'], ['v']], [[], ['x','m','l']],
+      [(['a'], 2), (['b'], 0), (['c'], 3), (['t'], 0)]⟩
+    SerResolve.EnvStrings env ∧ SerResolve.DeclsOk env (inheritedDecls (.node (.element 0) []) []) :=
+  ⟨⟨by decide, rfl, rfl, rfl, rfl, by decide⟩, by
+    intro x hx
+    simp only [inheritedDecls, List.isEmpty_nil, if_true, basePrefixes, List.mem_singleton] at hx
+    subst hx
+    exact ⟨by decide, fun _ => rfl⟩⟩
+
+/-- Non-vacuity, closed, OUTSIDE `Representable`: `<a><b c="x"/><?t?></a>` with `a` in namespace `u`, the
+    attribute `c` in namespace `v`, an EMPTY text node next to a text node holding U+0001 inside `b`, nothing
+    declared.  Not representable, not writable; after the call `to_string` succeeds and the names are written
+    `n0:a`, `n1:c` under the new declarations (U+0001 is written as it is: the text is no XML). -/
+example :
+    let env : Env := ⟨[[], Gen.xmlNs, ['u'], ['v']], [[], ['x','m','l']],
+      [(['a'], 2), (['b'], 0), (['c'], 3), (['t'], 0)]⟩
+    let t : Tree := .node (.element 0) [.node (.element 1) [.node (.attribute 2 ['x']) [],
+      .node (.text []) [], .node (.text [Char.ofNat 1]) []], .node (.pi 3 none) []]
+    RepresentableFragment env (.node .document [t]) = false ∧ namesWritable env t [] = some false ∧
+    (match createMissingPrefixes env t [] with
+      | .ok (env', t') => some (namesWritable env' t' [], toXmlString env' t' [])
+      | _ => none) =
+    some (some true, .ok ("<n0:a xmlns:n0=\"u\" xmlns:n1=\"v\"><b n1:c=\"x\">".toList ++ [Char.ofNat 1]
+      ++ "</b><?t?></n0:a>".toList)) := by
+  decide
+
+/-- … and the one error that remains: a processing instruction whose target is in a namespace. -/
+example :
+    let env : Env := ⟨[[], Gen.xmlNs, ['u']], [[], ['x','m','l']], [(['a'], 2), (['t'], 2)]⟩
+    let t : Tree := .node (.element 0) [.node (.pi 1 none) []]
+    (match createMissingPrefixes env t [] with
+      | .ok (env', t') => some (namesWritable env' t' [], toXmlString env' t' [])
+      | _ => none) = some (some true, .err .namespaceInProcessingInstruction) := by
+  decide
+
+end DocumentKeepsAndEveryTree
 
 end XotModel.Props
